@@ -34,8 +34,11 @@ func RunATPServer(
 }
 
 type atpServerSession struct {
-	ctx            context.Context
-	wg             *sync.WaitGroup
+	ctx context.Context
+	wg  *sync.WaitGroup
+	// reportersWG counts the running step and signal handler goroutines. They report errors through workDone,
+	// which may therefore only be closed once all of them are done.
+	reportersWG    sync.WaitGroup
 	stdinCloser    io.ReadCloser
 	cborStdin      *cbor.Decoder
 	cborStdout     *cbor.Encoder
@@ -105,6 +108,10 @@ func (s *atpServerSession) sendRuntimeMessage(msgID uint32, runID string, messag
 func (s *atpServerSession) handleClosure() []*ServerError {
 	// Wait for work done or context complete.
 	var errors []*ServerError
+	// Set once an error report could not be sent; later errors are then only collected.
+	sendFailed := false
+	// Set once stdin was closed because of a fatal error.
+	stdinClosed := false
 closeLoop:
 	for {
 		select {
@@ -113,6 +120,10 @@ closeLoop:
 				break closeLoop
 			}
 			errors = append(errors, &errorSent)
+			if sendFailed {
+				// The output is broken. Keep receiving, so that no step or signal handler blocks while reporting.
+				continue
+			}
 			err := s.sendRuntimeMessage(
 				MessageTypeError,
 				errorSent.RunID,
@@ -125,23 +136,31 @@ closeLoop:
 			// If that didn't send, just send to stderr now.
 			if err != nil {
 				_, _ = fmt.Fprintf(os.Stderr, "error while sending error message: %s\n", err)
+				sendFailed = true
 			}
-			// If either the error report sending failed, or the error was server fatal, stop here.
-			if err != nil || errorSent.ServerFatal {
+			// If either the error report sending failed, or the error was server fatal, stop reading input.
+			// Steps and signal handlers that are still running keep reporting through the channel until the last
+			// of them is done and the channel is closed, so the loop goes on.
+			if (err != nil || errorSent.ServerFatal) && !stdinClosed {
+				stdinClosed = true
 				err = s.stdinCloser.Close()
 				if err != nil {
-					return append(errors, &ServerError{
+					errors = append(errors, &ServerError{
 						RunID:       errorSent.RunID,
 						Err:         fmt.Errorf("error closing stdin (%w) after workDone error (%v)", err, errorSent),
 						StepFatal:   true,
 						ServerFatal: true,
 					})
-				} else {
-					break closeLoop
 				}
 			}
 		case <-s.ctx.Done():
 			// Likely got sigterm. Just close. Ideally gracefully.
+			// Keep the channel drained so that running steps and signal handlers never block while reporting.
+			go func() {
+				//nolint:revive // intentionally empty: discard
+				for range s.workDone {
+				}
+			}()
 			break closeLoop
 		}
 	}
@@ -253,8 +272,10 @@ func (s *atpServerSession) handleWorkStartMessage(runID string, workStartMsg Wor
 	}
 	s.runningSteps[runID] = workStartMsg.StepID
 	s.wg.Add(1) // Wait until the step is done
+	s.reportersWG.Add(1)
 	go func() {
 		s.runStep(runID, workStartMsg)
+		s.reportersWG.Done()
 		s.wg.Done()
 	}()
 }
@@ -280,6 +301,7 @@ func (s *atpServerSession) handleSignalMessage(runID string, signalMessage Signa
 		return
 	}
 	s.wg.Add(1) // Wait until the signal handler is done
+	s.reportersWG.Add(1)
 	go func() {
 		if err := s.pluginSchema.CallSignal(
 			s.ctx,
@@ -296,6 +318,7 @@ func (s *atpServerSession) handleSignalMessage(runID string, signalMessage Signa
 				ServerFatal: false,
 			}
 		}
+		s.reportersWG.Done()
 		s.wg.Done()
 	}()
 }
@@ -303,6 +326,9 @@ func (s *atpServerSession) handleSignalMessage(runID string, signalMessage Signa
 func (s *atpServerSession) run() {
 	defer func() {
 		s.runDoneChannel <- true
+		// Reading is over, so no new step or signal handler can start; wait for the running ones before closing
+		// the channel they report through.
+		s.reportersWG.Wait()
 		close(s.workDone)
 		s.wg.Done()
 	}()
